@@ -166,5 +166,57 @@ def run(ctx, rep):
                                    DISCHARGED, detail="worker constructed inside the call (facade classes have no "
                                    "worker-typed field to keep it in)", trivial=True))
     rep.floor("facade obligations", n_f, ftab["facade_floor"])
+    reset_rule(ctx, rep, ftab)
     rep.extra_cov["e2"] = {"ir_functions": len(g.fns), "reachable": len(reach), "entry_functions": len(present),
                            "pointer_as_data_functions_in_draco_sources": n_ptr}
+
+
+def reset_rule(ctx, rep, ftab):
+    """RESET: per-run state of reusable worker objects (see verif/reset.py)."""
+    from ..reset import Run
+    F = ctx.F
+    rep.rules_text.append(
+        "RESET (E1): for every class of the reusable encoder-worker hierarchy (PointCloudEncoder and subclasses, "
+        "entry Encode) a member that the run mutates and reads is re-initialised (assigned / cleared / reset) on "
+        "every path of the run that reaches a success return - interprocedural must-pass over the methods called "
+        "on `this`, virtual calls resolved per class; a member that is only conditionally re-created keeps the "
+        "previous run's object")
+    roots = list(ftab["reset_roots"]) + [{"root": "verif_control::c06_ResetRoot", "entry": "Run"}]
+    seen = {}
+    n_real = 0
+    for r in roots:
+        is_ctl = r["root"].startswith("verif_control::")
+        if r["root"] not in F.classes:
+            rep.broken("RESET: root class %s not found" % r["root"])
+            continue
+        for k in [r["root"]] + sorted(F.all_subclasses(r["root"])):
+            run = Run(F, k, r["entry"])
+            if run.entry is None:
+                continue
+            for f, v in sorted(run.analyse().items()):
+                key = (f, is_ctl)
+                if v["reset"]:
+                    st, det = DISCHARGED, "re-initialised on every successful run"
+                elif not v["read_in"]:
+                    st, det = DISCHARGED, "written on some paths only, but no method of the run reads it (cannot influence the output)"
+                else:
+                    st, det = VIOLATION, ("%s::%s is mutated during a run (%s) and read (%s) but is not re-initialised on "
+                                          "every path of %s that reaches a success return: a second run on the same object "
+                                          "can depend on the first (as class %s)" % (
+                                              f[0], f[1], ", ".join(x.split("::")[-1] for x in v["mutated_in"][:3]),
+                                              ", ".join(x.split("::")[-1] for x in v["read_in"][:3]), run.entry.base, k))
+                prev = seen.get(key)
+                if prev is not None and (prev.status == VIOLATION or st != VIOLATION):
+                    continue
+                o = Obligation("RESET", "%s::%s" % f, "per-run member", F.classes[f[0]]["loc"] if f[0] in F.classes else "-",
+                               st, detail=det, control=is_ctl)
+                seen[key] = o
+    for (f, is_ctl), o in sorted(seen.items(), key=lambda kv: (kv[0][1], kv[0][0])):
+        rep.add(o)
+        n_real += 0 if is_ctl else 1
+    ctl = {f[0][0].split("::")[-1] + "." + f[0][1]: o.status for f, o in seen.items() if f[1]}
+    rep.control("RESET", "c06_ResetBad.worker_", ctl.get("c06_ResetBad.worker_") == VIOLATION,
+                "conditionally re-created worker must be reported")
+    rep.control("RESET", "c06_ResetOk.worker_ (negative)", ctl.get("c06_ResetOk.worker_") == DISCHARGED,
+                "reset-then-create must be discharged")
+    rep.floor("RESET: per-run members of the encoder-worker hierarchy", n_real, ftab["reset_floor"])
